@@ -37,6 +37,12 @@ Mirrors the Go code that exists, *including what it leaves out of the fingerprin
 * `processPkg`, `abiTypesFor`, `marshalMap` — the emission loops: collect from a Go map (arbitrary order), sort by
                         name, emit.
 
+Two variants of the fingerprint are mirrored, selected by `Cfg` (the check probes which one the working tree has):
+`contentHash` — fingerprint.go `digestFilesWithOverlay` also stores `sha256` of every disk file (commit "the build
+fingerprint hashes file contents"); `ccflagsEnv` — collect.go `collectEnvInputs` also lists `CCFLAGS CFLAGS LDFLAGS`
+(commit "CCFLAGS, CFLAGS and LDFLAGS are part of the build fingerprint").  `Cfg.legacy` is the tree before both,
+`Cfg.fixed` the tree after both.
+
 Not modelled (unreachable after a successful package load, or outside the property): `stat` failures and the
 "fingerprint cycle" error of `collectFingerprint`; the second, lexicographic `sortDeps` (a no-op when dependency IDs
 are distinct); the cache directory layout `<root>/<triple>/<pkg>/<fp>.{a,manifest}` (triple and package path are
@@ -149,6 +155,23 @@ def listedEnvVars : List String :=
 /-- environment variables read by `internal/clang` at exec time (`mergeCompilerFlags`, `mergeLinkerFlags`) -/
 def compilerEnvVars : List String := ["CCFLAGS", "CFLAGS", "LDFLAGS"]
 
+/-- which variant of the fingerprint code the working tree has -/
+structure Cfg where
+  /-- `digestFilesWithOverlay` stores `sha256` of the content of disk files -/
+  contentHash : Bool
+  /-- `collectEnvInputs` lists `CCFLAGS`, `CFLAGS`, `LDFLAGS` -/
+  ccflagsEnv : Bool
+  deriving DecidableEq, Repr, Inhabited
+
+/-- before the two repairs -/
+def Cfg.legacy : Cfg := { contentHash := false, ccflagsEnv := false }
+/-- after the two repairs -/
+def Cfg.fixed : Cfg := { contentHash := true, ccflagsEnv := true }
+
+/-- the environment variables of `collectEnvInputs`, in the (sorted) order `MarshalYAML` writes them -/
+def envNames (cfg : Cfg) : List String :=
+  if cfg.ccflagsEnv then compilerEnvVars ++ listedEnvVars else listedEnvVars
+
 /-! ## packages -/
 
 structure PkgData where
@@ -198,6 +221,8 @@ structure FileDigest (φ : Type) where
   path : String
   size : Nat
   mtime : Int
+  /-- `sha256` of the file on disk (variant `contentHash` only) -/
+  sha256 : Option φ
   overlayHash : Option φ
   deriving DecidableEq, Repr
 
@@ -248,23 +273,24 @@ structure Manifest (φ : Type) where
   deriving DecidableEq, Repr
 
 section Key
-variable {φ : Type} (hb : Bytes → φ) (fp : Manifest φ → φ)
+variable {φ : Type} (cfg : Cfg) (hb : Bytes → φ) (fp : Manifest φ → φ)
 
 /-- fingerprint.go `digestFilesWithOverlay`, loop body -/
 def digestFile (f : File) : FileDigest φ :=
   match f.overlay with
-  | some c => { path := f.path, size := c.length, mtime := 0, overlayHash := some (hb c) }
-  | none => { path := f.path, size := f.size, mtime := f.mtime, overlayHash := none }
+  | some c => { path := f.path, size := c.length, mtime := 0, sha256 := none, overlayHash := some (hb c) }
+  | none => { path := f.path, size := f.size, mtime := f.mtime,
+              sha256 := if cfg.contentHash then some (hb f.content) else none, overlayHash := none }
 
 /-- fingerprint.go `digestFilesWithOverlay`: digest each path, then `sort.Slice` by `Path` -/
 def digestFiles (fs : List File) : List (FileDigest φ) :=
-  isort (fun a b => strLe a.path b.path) (fs.map (digestFile hb))
+  isort (fun a b => strLe a.path b.path) (fs.map (digestFile cfg hb))
 
 /-- collect.go `collectEnvInputs` -/
 def envSection (g : Global) : EnvSection :=
   { goos := g.goos, goarch := g.goarch, goVersion := g.goVersion, llgoVersion := g.llgoVersion,
     compilerHash := g.compilerHash, llvmTriple := g.llvmTriple, llvmVersion := g.llvmVersion,
-    vars := listedEnvVars.filterMap fun n => if getenv g n ≠ "" then some (n, getenv g n) else none }
+    vars := (envNames cfg).filterMap fun n => if getenv g n ≠ "" then some (n, getenv g n) else none }
 
 /-- collect.go `collectCommonInputs` + fingerprint.go `Build` (`sort.Strings(common.BuildTags)`) -/
 def commonSection (g : Global) : CommonSection φ :=
@@ -272,14 +298,14 @@ def commonSection (g : Global) : CommonSection φ :=
     buildTags := if g.tags = "" then [] else isort strLe (g.tags.splitOn ",")
     target := g.target, targetABI := g.targetABI, cc := g.cc
     ccflags := exportCCFlags g, cflags := g.cflags, ldflags := g.ldflags, linker := g.linker
-    extraFiles := digestFiles hb (g.extraFiles.map File.noOverlay) }
+    extraFiles := digestFiles cfg hb (g.extraFiles.map File.noOverlay) }
 
 /-- collect.go `collectPackageInputs`; `rewrite_vars` is an `orderedStringMap` (keys sorted when marshalled) -/
 def packageSection (g : Global) (d : PkgData) : PackageSection φ :=
   { pkgPath := d.path, pkgID := d.id
-    goFiles := digestFiles hb (selected g d.goFiles)
-    altGoFiles := digestFiles hb d.altFiles
-    otherFiles := digestFiles hb d.otherFiles
+    goFiles := digestFiles cfg hb (selected g d.goFiles)
+    altGoFiles := digestFiles cfg hb d.altFiles
+    otherFiles := digestFiles cfg hb d.otherFiles
     rewriteVars := isort (fun a b => strLe a.1 b.1) d.rewriteVars }
 
 def depLe (a b : DepEntry φ) : Bool := strLe a.id b.id
@@ -288,7 +314,7 @@ mutual
 /-- collect.go `collectFingerprint`: the manifest of one package -/
 def key (g : Global) : PkgT → Manifest φ
   | .mk d deps =>
-    { env := envSection g, common := commonSection hb g, pkg := packageSection hb g d
+    { env := envSection cfg g, common := commonSection cfg hb g, pkg := packageSection cfg hb g d
       -- collectDependencyInputs: skip self-imports, sort by ID
       deps := isort depLe ((depEntries g deps).filter fun e => e.id != d.id) }
 /-- collect.go `dependencyFingerprint`, for each import -/
@@ -388,7 +414,7 @@ def relevantOf (i : Inputs) : Rel := relevant i.1 i.2
 /-! ## the cache (collect.go `tryLoadFromCache`, `saveToCache`; build.go `buildAllPkgs`) -/
 
 section Build
-variable {φ : Type} [DecidableEq φ] (hb : Bytes → φ) (fp : Manifest φ → φ)
+variable {φ : Type} [DecidableEq φ] (cfg : Cfg) (hb : Bytes → φ) (fp : Manifest φ → φ)
 variable {Obj : Type} (compileRel : Rel → Obj)
 
 /-- finite map fingerprint → archive; the newest entry for a fingerprint wins (`copyFileAtomic` overwrites) -/
@@ -408,7 +434,7 @@ structure BuildOpts where
 
 /-- one package: fingerprint, lookup, otherwise compile and store (never for `main`) -/
 def buildPkg (o : BuildOpts) (g : Global) (c : CacheMap φ Obj) (t : PkgT) : CacheMap φ Obj × Obj :=
-  let k := fp (key hb fp g t)
+  let k := fp (key cfg hb fp g t)
   match (if o.cacheOn && !o.force then lookup c k else none) with
   | some obj => (c, obj)
   | none =>
@@ -418,7 +444,7 @@ def buildPkg (o : BuildOpts) (g : Global) (c : CacheMap φ Obj) (t : PkgT) : Cac
 def buildProg (o : BuildOpts) (g : Global) : CacheMap φ Obj → List PkgT → CacheMap φ Obj × List Obj
   | c, [] => (c, [])
   | c, t :: ts =>
-    let r := buildPkg hb fp compileRel o g c t
+    let r := buildPkg cfg hb fp compileRel o g c t
     let rs := buildProg o g r.1 ts
     (rs.1, r.2 :: rs.2)
 
@@ -451,23 +477,23 @@ def step (s : State φ Obj) : Step → State φ Obj
   | .edit p => { s with prog := p }
   | .clean => { s with cache := [] }
   | .build o =>
-    let r := buildProg hb fp compileRel o s.prog.glob s.cache s.prog.pkgs
+    let r := buildProg cfg hb fp compileRel o s.prog.glob s.cache s.prog.pkgs
     { s with cache := r.1, served := some r.2, trace := (s.prog, r.2) :: s.trace }
 
 def run (s : State φ Obj) : List Step → State φ Obj
   | [] => s
-  | st :: rest => run (step hb fp compileRel s st) rest
+  | st :: rest => run (step cfg hb fp compileRel s st) rest
 
 def State.init (p : Program) : State φ Obj := { prog := p, cache := [], served := none, trace := [] }
 
 /-- `key : Inputs → Manifest` -/
-def keyOf (i : Inputs) : Manifest φ := key hb fp i.1 i.2
+def keyOf (i : Inputs) : Manifest φ := key cfg hb fp i.1 i.2
 /-- `compile : Inputs → Artifact`, by construction a function of `relevantOf` -/
 def compile (i : Inputs) : Obj := compileRel (relevantOf i)
 /-- the artifact the tool hands out after a history that starts with an empty cache -/
-def served (p₀ : Program) (h : List Step) : Option (List Obj) := (run hb fp compileRel (State.init p₀) h).served
+def served (p₀ : Program) (h : List Step) : Option (List Obj) := (run cfg hb fp compileRel (State.init p₀) h).served
 /-- the inputs after a history -/
-def current (p₀ : Program) (h : List Step) : Program := (run hb fp compileRel (State.init p₀) h).prog
+def current (p₀ : Program) (h : List Step) : Program := (run cfg hb fp compileRel (State.init p₀) h).prog
 
 end Build
 
